@@ -123,8 +123,10 @@ def run(chk):
     r, behs = emit_behaviours('Gen_Lifecycle', f'Gen_Lifecycle_{tier}.cfg', maximal_only=False, timeout=900)
     chk.add_tlc(r)
     rnd = random.Random(chk.seed + 5)
-    if not quick and len(behs) > 40000:
-        behs = rnd.sample(behs, 40000)
+    if not quick and len(behs) > 24000:
+        good = [b for b in behs if _healthy(b)]
+        rest = [b for b in behs if not _healthy(b)]
+        behs = good[:8000] + rnd.sample(rest, min(len(rest), 24000 - len(good[:8000])))
     if quick and len(behs) > 1500:
         # all healthy configurations (few), and a sample of the many unhealthy ones
         good = [b for b in behs if _healthy(b)]
